@@ -131,6 +131,16 @@ CLAIMS['C12'] = dict(
          'stubbed by arbitrary values of their range on the symbolic path.',
     technique=TECH_B, engine='pysym', ref='DESIGN.md section 3, C12')
 
+CLAIMS['C04'] = dict(
+    text='The real bias / nse / kge / corr are executed on symbolic series with a real transform object with symbolic parameters; on every path z3 '
+         'decides that the score equals the textbook definition applied to trans.forward(obs), trans.forward(sim) with incomplete pairs removed, that '
+         'non-degenerate series never give NaN, nse <= 1, perfect simulations score 0/1/1. binary() on a symbolic table of positive integer counts: '
+         'each of the nine scores equals its contingency-table definition for all counts (odds ratio below, at and above 1).',
+    note='Bounds: length 2-3 (4 thorough), Identity and Log (thorough + BoxCox2, Reciprocal, Sinh), one concrete NaN position with excludenull. np.corrcoef = its '
+         'formula; spearmanr is a stub whose arguments are checked; confusion_matrix (pandas crosstab) is outside. kge / some corr obligations come back '
+         'solver-unknown (square roots in NRA) and are counted as inconclusive.',
+    technique=TECH_B, engine='pysym', ref='DESIGN.md section 3, C04')
+
 PENDING = 'check not built yet in this session (planned, see DESIGN.md section 3)'
 NOT_APPLICABLE = {
     'C13': 'persistence is carried by numpy tofile/fromfile, dtype objects, zipfile and float repr: no arithmetic core a solver can be given; '
